@@ -1223,6 +1223,9 @@ static void SwitchTo_6816(void) {
     SwitchFrom     = SwitchFrom_6816;
     AddMoto16PseudoONOFF();
 
+    /* the default of this target, not what the previous one left behind */
+    SetFlag(&DoPadding, DoPaddingName, False);
+
     pASSUMERecs  = ASSUME6816s;
     ASSUMERecCnt = ASSUME6816Count;
 
